@@ -31,6 +31,7 @@ ActFor(act) ==
     [] act.a = "join"       -> OpJoin(act.n, act.m)
     [] act.a = "sync"       -> BeginSync
     [] act.a = "quiet"      -> DeclareQuiet
+    [] act.a = "synced"     -> DeclareSynced
     [] OTHER                -> FALSE
 
 Conform == ActFor(Line.act) /\ last' = Line.act
